@@ -175,7 +175,7 @@ impl Property for C08 {
         if cfg.lazy_signer {
             o.label("caller-written-signer");
         }
-        if case.stale_sig != 0 && case.ops.iter().any(|x| !matches!(x, Op::Reparse)) {
+        if case.stale_sig != 0 && case.ops.iter().any(|x| !matches!(x, Op::Reparse | Op::SignFail(_))) {
             o.label("resigned-stale-signature-header");
         }
         if !cfg.files.is_empty() && cfg.compression.kind != 1 {
@@ -205,7 +205,8 @@ impl Property for C08 {
             }
             for (i, op) in case.ops.iter().enumerate() {
                 apply_op(&mut pkg, op)?;
-                if !matches!(op, Op::Reparse) {
+                // (a failed signing attempt rewrites nothing)
+                if !matches!(op, Op::Reparse | Op::SignFail(_)) {
                     stale = false;
                 }
                 if stale {
